@@ -30,6 +30,9 @@ pub fn configs(thorough: bool) -> Vec<McConfig> {
         McConfig { name: "decay+offset/hetero/w=1/sd", fns: vec![(Kind::Exp, vec![0]), (Kind::One, vec![])], truth: vec![2.0], coef: vec![3.0, 0.5], n: 24, xmax: 8.0, base: 1e-3, slope: 4.0, wmode: 1, built: false },
         McConfig { name: "2decays/hetero/w~1/sd", fns: vec![(Kind::Exp, vec![0]), (Kind::Exp, vec![1])], truth: vec![1.0, 6.0], coef: vec![3.0, 2.0], n: 40, xmax: 20.0, base: 5e-4, slope: 2.0, wmode: 2, built: true },
     ];
+    // few degrees of freedom: here a wrong number of degrees of freedom or a one-sided quantile is an O(0.05) effect
+    v.push(McConfig { name: "decay/dof2/w=1/sd", fns: vec![(Kind::Exp, vec![0])], truth: vec![2.0], coef: vec![3.0], n: 4, xmax: 5.0, base: 1e-3, slope: 1.0, wmode: 1, built: true });
+    v.push(McConfig { name: "decay+offset/dof2/unweighted", fns: vec![(Kind::Exp, vec![0]), (Kind::One, vec![])], truth: vec![2.0], coef: vec![3.0, 1.0], n: 5, xmax: 6.0, base: 1e-3, slope: 0.0, wmode: 0, built: false });
     if thorough {
         v.push(McConfig { name: "gauss+decay+offset/homo/unweighted", fns: vec![(Kind::Gauss, vec![0, 1]), (Kind::Exp, vec![2]), (Kind::One, vec![])], truth: vec![4.0, 1.0, 3.0], coef: vec![2.0, 3.0, 1.0], n: 50, xmax: 10.0, base: 1e-3, slope: 0.0, wmode: 0, built: false });
         v.push(McConfig { name: "decay/small-dof/w=1/sd", fns: vec![(Kind::Exp, vec![0])], truth: vec![2.0], coef: vec![3.0], n: 5, xmax: 6.0, base: 1e-3, slope: 1.0, wmode: 1, built: true });
@@ -134,8 +137,9 @@ pub fn run_config(out: &mut Out, cfg: &McConfig, seed: u64, nfits: usize) {
 }
 
 pub fn stream(out: &mut Out, seed: u64, thorough: bool) {
-    let nfits = if thorough { 30000 } else { 3000 };
     for (i, cfg) in configs(thorough).iter().enumerate() {
+        let small = cfg.n <= 8;
+        let nfits = if thorough { if small { 100000 } else { 30000 } } else if small { 20000 } else { 3000 };
         run_config(out, cfg, seed.wrapping_mul(1000).wrapping_add(i as u64), nfits);
     }
 }
